@@ -5,11 +5,11 @@ calls made from C (libverifdump.so), plus the compiled layout table of the mirro
   c20_hyp.py --lib libscientific.so --dump libverifdump.so --seed N --count N --out stats.json --work dir [--only sub]
   c20_hyp.py ... --replay example.json
 """
-import sys, os, json, ctypes, types, argparse, hashlib, math
+import sys, os, json, ctypes, types, argparse, hashlib, math, time
 
 ap = argparse.ArgumentParser()
 ap.add_argument("--lib"); ap.add_argument("--dump"); ap.add_argument("--seed", type=int, default=1); ap.add_argument("--count", type=int, default=30)
-ap.add_argument("--out"); ap.add_argument("--work"); ap.add_argument("--only", default=""); ap.add_argument("--replay", default=""); ap.add_argument("--pkg", default="/repo/src/python_bindings")
+ap.add_argument("--budget", type=float, default=0.0); ap.add_argument("--out"); ap.add_argument("--work"); ap.add_argument("--only", default=""); ap.add_argument("--replay", default=""); ap.add_argument("--pkg", default="/repo/src/python_bindings")
 A = ap.parse_args()
 
 _lib = ctypes.CDLL(A.lib, mode=ctypes.RTLD_GLOBAL)
@@ -288,11 +288,14 @@ except Mismatch as e:
 for sub in SUBS:
     if A.only and A.only != sub: continue
     st_ = {"evaluations": 0, "nt": set(), "samples": []}
-    last = {}
+    last = {}; t_sub = time.time()
     @seed(A.seed)
     @settings(max_examples=A.count, database=None, deadline=None, report_multiple_bugs=False, suppress_health_check=list(HealthCheck), derandomize=False)
     @given(GENS[sub]())
     def prop(ex):
+        # wall budget (thorough tier): once it is used up, further generated examples are not executed (and not counted);
+        # it truncates the exploration only - never while a failure is being shrunk
+        if A.budget > 0 and not last and time.time() - t_sub > A.budget: return
         st_["evaluations"] += 1
         try:
             nt = execute(sub, ex)
